@@ -289,6 +289,8 @@ fn endless() -> Vec<Case> {
         mk("connect-header-fields", Route::Connect, b"HTTP/1.1 200 OK\r\n", b"X-A: b\r\n", Terminal::Bytes, Some(bound), false),
         mk("connect-invalid-name-fields", Route::Connect, b"HTTP/1.1 200 OK\r\n", b"@: x\r\n", Terminal::Bytes, Some(bound), false),
         mk("connect-refusal-body", Route::Connect, b"HTTP/1.1 403 Forbidden\r\n\r\n", b"no", Terminal::Bytes, Some(10 * 1024 + 8192 + 64), false),
+        mk("connect-refusal-body-declared-long", Route::Connect, b"HTTP/1.1 403 Forbidden\r\nContent-Length: 9223372036854775807\r\n\r\n", b"no", Terminal::Bytes, Some(10 * 1024 + 8192 + 128), false),
+        mk("connect-refusal-body-declared-1mib", Route::Connect, b"HTTP/1.1 502 Bad\r\nContent-Length: 1048576\r\n\r\n", b"no", Terminal::Bytes, Some(10 * 1024 + 8192 + 128), false),
         // negative controls: legitimately unbounded bodies must simply be delivered
         mk("tiny-chunks", Route::Direct, CHUNKED_HEAD, b"1\r\nz\r\n", Terminal::ReadSome(300_000), None, true),
         mk("close-body", Route::Direct, b"HTTP/1.1 200 OK\r\n\r\n", b"zy", Terminal::ReadSome(300_000), None, true),
